@@ -285,12 +285,12 @@ func init() {
 			}
 			// fields that only one side handles by design
 			oneSided := map[string]string{
-				"packet:const(0)":              "",
-				"DATA/I-DATA:const(0)":         "reserved 16 bits of I-DATA",
-				"paramHeader:expr":             "length is computed from the value",
-				"errorCauseHeader:len":         "length field (both sides, computed on encode)",
-				"chunkHeader:expr":             "length is computed from the value",
-				"SACK:len(gapAckBlocks)":       "",
+				"packet:const(0)":                       "",
+				"DATA/I-DATA:const(0)":                  "reserved 16 bits of I-DATA",
+				"paramHeader:expr":                      "length is computed from the value",
+				"errorCauseHeader:len":                  "length field (both sides, computed on encode)",
+				"chunkHeader:expr":                      "length is computed from the value",
+				"SACK:len(gapAckBlocks)":                "",
 				"reset-request:elem(streamIdentifiers)": "",
 			}
 			_ = oneSided
@@ -357,17 +357,44 @@ func init() {
 			}
 			// DATA flag bits
 			decBits := c.P.flagBitsDec(c.Fn("chunkPayloadData.unmarshal"))
-			encBits := c.P.flagBitsEnc(c.Fn("chunkPayloadData.marshal"))
+			// the flag byte of each framing branch is built in marshal itself or by a helper it calls
+			encFn := c.Fn("chunkPayloadData.marshal")
+			flagsF := c.field("chunkHeader", "flags")
+			encBits := map[string][]int64{}
+			want := 0
+			srcSeen := map[*ssa.Function]int{}
+			for _, a := range c.storesIn(encFn, flagsF) {
+				src := encFn
+				if call, ok := unconv(a.Val).(*ssa.Call); ok {
+					if sc := call.Call.StaticCallee(); sc != nil && c.P.inPkg(sc) && sc.Blocks != nil {
+						src = sc
+					}
+				}
+				srcSeen[src]++
+				want++
+			}
+			for src, n := range srcSeen {
+				bits := c.P.flagBitsEnc(src)
+				for f, ms := range bits {
+					if src == encFn {
+						encBits[f] = append(encBits[f], ms...)
+					} else {
+						for i := 0; i < n; i++ { // one helper serves n branches
+							encBits[f] = append(encBits[f], ms...)
+						}
+					}
+				}
+			}
 			for _, f := range []string{"endingFragment", "beginningFragment", "unordered", "immediateSack"} {
 				d, okD := decBits[f]
 				e := encBits[f]
-				ok := okD && len(e) == 2
+				ok := okD && len(e) == want && want >= 2
 				for _, m := range e {
 					if m != d {
 						ok = false
 					}
 				}
-				c.Check(ok, "flagbit:"+f, "", fmt.Sprintf("bit mask %d in decoder and in both encoder branches", d), fmt.Sprintf("flag bit mismatch for %s: decoder mask %d(%v) encoder masks %v", f, d, okD, e))
+				c.Check(ok, "flagbit:"+f, "", fmt.Sprintf("bit mask %d in decoder and in every encoder branch", d), fmt.Sprintf("flag bit mismatch for %s: decoder mask %d(%v) encoder masks %v", f, d, okD, e))
 			}
 		}})
 
